@@ -481,6 +481,11 @@ class StmtMixin:
                         s2.setvar(tgt.value.id, VRec(nf))      # records are values: the variable is rebound (paths stay independent)
                         out.append(s2)
                     elif isinstance(b, VDict):
+                        if isinstance(v, VOpt) and b.v[0] != 'opt' and v.inner == b.v:
+                            # an optional stored into a dictionary of present values: provably present here, or the
+                            # declared value type is wrong (obligation `stored value is not None`)
+                            self.check(s2, z3.Not(v.is_none()), '%s/dict-value-present@%d' % (self.cur_contract.target if self.cur_contract else '?', getattr(node, 'lineno', 0)))
+                            v = v.some()
                         self.dict_set(s2, b, idx, v)
                         out.append(s2)
                     elif isinstance(b, VList):
